@@ -96,6 +96,14 @@ func (dpq *DelayedPriorityQueue) Enqueue(
 		dpq.mutex.Lock()
 		defer dpq.mutex.Unlock()
 		dpq.requestCounts[req.priority]--
+		select {
+		case <-req.doneCh:
+			// the slot was handed over while the TTL timer fired: it is ours
+			return true, nil
+		default:
+		}
+		// abandoned: the roll-over pass must not spend a slot on this request
+		req.isProcessed = true
 		return false, nil
 	}
 }
@@ -162,6 +170,9 @@ func (dpq *DelayedPriorityQueue) processQueueItems() {
 			dpq.cl.Logger.Error().
 				Msg("Could not cast priorityQueue item as Request, " +
 					"will not process")
+			continue
+		}
+		if req.isProcessed {
 			continue
 		}
 		dpq.cl.Logger.Trace().
